@@ -246,6 +246,11 @@ def c17_configs(thorough):
                                 callers=[("send", "q", {"exc": False})]), n))
         out.append(("dfs", dict(driver=d, limit=1, budget={"lose": 1, "back": 0},
                                 callers=[("send", "q", {}), ("seq", ["off", "q"], {})]), n))
+        # after 'failed' the application calls connect() itself while the device is STILL away: the attempts start
+        # over and 'failed' is reported a second (third) time  (strengthening after seeded round 6)
+        for lim in (0, 1, 2):
+            out.append(("dfs", dict(driver=d, limit=lim, budget={"lose": 1, "back": 1, "connect_absent": 2},
+                                    callers=[("send", "q", {"exc": False})]), n))
         out.append(("rand", dict(driver=d, limit=3, budget={"lose": 3, "back": 3, "cancel": 1},
                                  callers=[("send", "q", {}), ("send", "dtq", {"exc": False}), ("send", "cfg", {}),
                                           ("seq", ["q", "off"], {})]), m))
